@@ -34,6 +34,7 @@ type Engine struct {
 	replayTemplates map[string]*replayTemplate
 	stableCache map[string][]string
 	decoded  []*Decoded
+	globalInvs map[string][]Clause // package dir -> invariants
 }
 
 func newEngine(repo, verifDir string) *Engine {
@@ -96,6 +97,12 @@ func (e *Engine) readContracts() error {
 		}
 		macroTable = e.specFuncs
 		e.lemmas = append(e.lemmas, cf.Lemmas...)
+		if len(cf.GlobalInvs) > 0 {
+			if e.globalInvs == nil {
+				e.globalInvs = map[string][]Clause{}
+			}
+			e.globalInvs[cf.Dir] = append(e.globalInvs[cf.Dir], cf.GlobalInvs...)
+		}
 		for _, d := range cf.Decoded {
 			d.Dir = cf.Dir
 			e.decoded = append(e.decoded, d)
@@ -154,7 +161,19 @@ func (e *Engine) load(dirs []string, extra []string) error {
 		}
 		e.allPkgs[p.PkgPath] = p
 		if p.Types != nil {
-			if old, ok := e.byName[p.Types.Name()]; !ok || p.PkgPath < old.Path() {
+			const repoPrefix = "github.com/google/certificate-transparency-go"
+			old, ok := e.byName[p.Types.Name()]
+			better := !ok
+			if ok {
+				oldRepo, newRepo := strings.HasPrefix(old.Path(), repoPrefix), strings.HasPrefix(p.PkgPath, repoPrefix)
+				switch {
+				case newRepo && !oldRepo:
+					better = true
+				case newRepo == oldRepo && p.PkgPath < old.Path():
+					better = true
+				}
+			}
+			if better {
 				e.byName[p.Types.Name()] = p.Types
 			}
 		}
@@ -300,7 +319,7 @@ func (e *Engine) newTrans(fn *ssa.Function, c *Contract) *FnTrans {
 		vals: map[ssa.Value]Val{}, in: map[*ssa.BasicBlock]*BState{}, out: map[*ssa.BasicBlock]*BState{},
 		sites: map[ssa.CallInstruction]*Site{}, siteByAlias: map[string]*Site{}, siteDeclOf: map[ssa.CallInstruction][]string{},
 		abstracted: map[string]int{}, usedSpecs: map[string]bool{}, lets: map[string]*Expr{}, siteInstr: map[string]ssa.CallInstruction{}, ghostSites: map[string]*Site{}, loopInfo: map[int]string{},
-		closures: map[string]*ssa.MakeClosure{}, heapAnc: map[string][]*frameFact{}, frameDone: map[string]bool{}, escCache: map[*ssa.Alloc]bool{}, autoInvs: map[*ssa.BasicBlock]func(string, int) string{}, autoPhis: map[*ssa.BasicBlock][]*ssa.Phi{}, ifaceTests: map[string]types.Type{}}
+		closures: map[string]*ssa.MakeClosure{}, usedGlobalInvs: map[string]Clause{}, heapAnc: map[string][]*frameFact{}, frameDone: map[string]bool{}, escCache: map[*ssa.Alloc]bool{}, autoInvs: map[*ssa.BasicBlock]func(string, int) string{}, autoPhis: map[*ssa.BasicBlock][]*ssa.Phi{}, ifaceTests: map[string]types.Type{}}
 	if c != nil {
 		tr.props = c.Props
 	}
